@@ -146,42 +146,72 @@ func cmdRun(args []string) int {
 		if e.Tiers != "both" && e.Tiers != *tier {
 			continue
 		}
-		ex := newExplorer(cfg, e.Fn)
-		ex.workers = *workers
-		ex.solverK = *solverK
-		ex.verbose = *verbose
-		ex.timeout = 3_000
-		ex.maxPaths = 200_000
-		budget := 15 * time.Minute
-		if cfg.Thorough {
-			ex.timeout = 10_000
-			ex.maxPaths = 2_000_000
-			budget = 90 * time.Minute
+		var ex *Explorer
+		var t0 time.Time
+		var confirmed []bool
+		var details []string
+	attempts:
+		for attempt := 0; attempt < 2; attempt++ {
+			ex = newExplorer(cfg, e.Fn)
+			ex.workers = *workers
+			ex.solverK = *solverK
+			ex.verbose = *verbose
+			ex.timeout = 3_000
+			ex.maxPaths = 200_000
+			budget := 15 * time.Minute
+			if cfg.Thorough {
+				ex.timeout = 10_000
+				ex.maxPaths = 2_000_000
+				budget = 90 * time.Minute
+			}
+			ex.fbTimeout = 150
+			if cfg.Thorough {
+				ex.fbTimeout = 600
+			}
+			if v, ok := e.Opts["first_ms"]; ok {
+				// short incremental attempt, then the portfolio fall-back
+				ex.timeout, _ = strconv.Atoi(v)
+			}
+			if v, ok := e.Opts["fallback_s"]; ok {
+				ex.fbTimeout, _ = strconv.Atoi(v)
+			}
+			if v, ok := e.Opts["timeout_ms"]; ok {
+				ex.timeout, _ = strconv.Atoi(v)
+			}
+			if v, ok := e.Opts["budget_s"]; ok {
+				n, _ := strconv.Atoi(v)
+				budget = time.Duration(n) * time.Second
+			}
+			if *maxPaths > 0 {
+				ex.maxPaths = *maxPaths
+			}
+			if attempt > 0 {
+				// second attempt after solver-undecided queries or an unconfirmed
+				// model (both happen under heavy machine load): longer timeouts
+				ex.timeout *= 5
+				ex.fbTimeout *= 2
+			}
+			ex.deadline = time.Now().Add(budget)
+			t0 = time.Now()
+			ex.Run()
+			confirmed, details = nil, nil
+			anyConfirmed, anyUnconfirmed := false, false
+			for _, v := range ex.violations {
+				ok, detail := confirmConcrete(cfg, e, v)
+				confirmed = append(confirmed, ok)
+				details = append(details, detail)
+				if ok {
+					anyConfirmed = true
+				} else {
+					anyUnconfirmed = true
+				}
+			}
+			if attempt == 0 && !anyConfirmed && (len(ex.unknowns) > 0 || anyUnconfirmed) && len(ex.unsupported) == 0 {
+				fmt.Printf("note: entry %s had %d solver-undecided queries / unconfirmed models; re-running once with longer timeouts\n", e.Name, len(ex.unknowns))
+				continue attempts
+			}
+			break
 		}
-		ex.fbTimeout = 150
-		if cfg.Thorough {
-			ex.fbTimeout = 600
-		}
-		if v, ok := e.Opts["first_ms"]; ok {
-			// short incremental attempt, then the portfolio fall-back
-			ex.timeout, _ = strconv.Atoi(v)
-		}
-		if v, ok := e.Opts["fallback_s"]; ok {
-			ex.fbTimeout, _ = strconv.Atoi(v)
-		}
-		if v, ok := e.Opts["timeout_ms"]; ok {
-			ex.timeout, _ = strconv.Atoi(v)
-		}
-		if v, ok := e.Opts["budget_s"]; ok {
-			n, _ := strconv.Atoi(v)
-			budget = time.Duration(n) * time.Second
-		}
-		if *maxPaths > 0 {
-			ex.maxPaths = *maxPaths
-		}
-		ex.deadline = time.Now().Add(budget)
-		t0 := time.Now()
-		ex.Run()
 		r := &EntryResult{Entry: e.Name, Paths: ex.paths, Forks: ex.forks, Branches: ex.branches, EndReasons: ex.endReasons,
 			Obligations: ex.obligations, ConcreteObl: ex.concreteObl, IvObl: ex.ivObl, IvDecided: ex.ivDecided,
 			Queries: map[string]int{"total": ex.sstats.Queries, "sat": ex.sstats.Sat, "unsat": ex.sstats.Unsat, "unknown": ex.sstats.Unknown, "solver_errors": ex.sstats.Errors, "fallback_calls": ex.fbCalls, "fallback_decided_by_cvc5_bv_as_int": ex.fbCvc5, "fallback_decided_by_fresh_z3": ex.fbZ3},
@@ -213,7 +243,7 @@ func cmdRun(args []string) int {
 		for i, v := range ex.violations {
 			path := filepath.Join(outDir, fmt.Sprintf("cex-%s-%d.json", e.Name, i))
 			writeJSON(path, map[string]any{"property": id, "entry": e.Name, "label": v.Label, "model": v.Model, "var_order": v.VarOrder, "decisions": v.Decisions, "stack": v.Stack, "notes": v.Notes})
-			ok, detail := confirmConcrete(cfg, e, v)
+			ok, detail := confirmed[i], details[i]
 			if ok {
 				fmt.Printf("VIOLATION property=%s replay=%s\n", id, path)
 				fmt.Printf("  entry=%s label=%q (reproduced by concrete re-execution of the real SSA code)\n", e.Name, v.Label)
